@@ -693,6 +693,25 @@ def build_exodus(am, d, rng):
     return ds, ex, {"blocks": image_blocks, "n_blocks": len(blocks)}
 
 
+def build_exodus_fixture(d, repo):
+    """an Exodus file of the test-suite, decoded independently here (plain xarray: connectN blocks in
+    variable order, 1-based, coord rows = x, y, z)"""
+    path = os.path.join(repo, d["path"])
+    if not os.path.exists(path):
+        path = os.path.join("/repo", d["path"])
+    ds = xr.open_dataset(path, decode_times=False)
+    blocks = [np.asarray(ds[k].values).astype(np.int64) for k in ds.variables if k.startswith("connect")]
+    xyz = np.asarray(ds["coord"].values, dtype=float)
+    pos = [xyz_to_lonlat(xyz[0, i], xyz[1, i], xyz[2, i]) for i in range(xyz.shape[1])]
+    ex = Expect.__new__(Expect)
+    ex.face_pos = [[pos[int(v) - 1] for v in r if int(v) != 0] for b in blocks for r in b.tolist()]
+    ex.aux = {}
+    ex.n_node = xyz.shape[1]
+    assert len(ex.face_pos) == d["n_face"] and [len(b) for b in blocks] == d["blocks"], "fixture changed"
+    ds.close()
+    return path, ex, {"blocks": [img(b) for b in blocks], "n_blocks": len(blocks)}
+
+
 # ---------------------------------------------------------------------------------------------
 # ESMF
 
